@@ -263,18 +263,21 @@ func runC09(c *Ctx) {
 			if len(args) != 1 {
 				continue
 			}
-			et := stripConv(args[0]).Type()
-			rev := lookupMethod(w, et, "revert")
-			if rev == nil {
-				c.Undecided(name+"#entry", a.Pos(), "cannot resolve the revert method of appended entry type "+et.String())
-				continue
-			}
-			entryNames = append(entryNames, types.TypeString(et, func(*types.Package) string { return "" }))
-			ek := t.effectKeys(w, rev, 2)
-			perEntry = append(perEntry, ek)
-			for k, n := range ek {
-				if n > revKeys[k] {
-					revKeys[k] = n
+			// the entry may be chosen in branches and appended once: every alternative counts
+			for _, alt := range entryAlternatives(args[0]) {
+				et := stripConv(alt.Val).Type()
+				rev := lookupMethod(w, et, "revert")
+				if rev == nil {
+					c.Undecided(name+"#entry", a.Pos(), "cannot resolve the revert method of appended entry type "+et.String())
+					continue
+				}
+				entryNames = append(entryNames, types.TypeString(et, func(*types.Package) string { return "" }))
+				ek := t.effectKeys(w, rev, 2)
+				perEntry = append(perEntry, ek)
+				for k, n := range ek {
+					if n > revKeys[k] {
+						revKeys[k] = n
+					}
 				}
 			}
 		}
@@ -1040,38 +1043,41 @@ func createObjectJournalKinds(c *Ctx, w *World, appendObj *types.Func) {
 		c.sites++
 		c.Check(fname(co)+"#previous-object-lookup-includes-deleted", prevCall.Pos(), includesDeleted, ifelse(includesDeleted, "the previous object is looked up with getDeletedStateObject, which also returns objects marked deleted earlier in the block", "the previous object is looked up with getStateObject, which hides objects marked deleted by an earlier transaction of the block: their re-creation is journaled as a plain creation, and reverting it drops the tombstone — the destroyed account comes back from the trie with its old balance, code and storage"))
 		for _, a := range callsTo(co, appendObj) {
-			args := callArgs(a)
-			et := stripConv(args[0]).Type()
-			name := types.TypeString(et, func(*types.Package) string { return "" })
-			atoms := atomsOf(factsAtInstr(a))
-			isNilPrev, nonNilPrev, other := false, false, false
-			for _, at := range atoms {
-				if at.Kind == "isnil" && stripConv(at.X) == ssa.Value(prevCall.Value()) {
-					if at.Truth {
-						isNilPrev = true
+			args0 := callArgs(a)
+			for _, alt := range entryAlternatives(args0[0]) {
+				args := []ssa.Value{alt.Val}
+				et := stripConv(alt.Val).Type()
+				name := types.TypeString(et, func(*types.Package) string { return "" })
+				atoms := alt.AtomsAt(a.(ssa.Instruction))
+				isNilPrev, nonNilPrev, other := false, false, false
+				for _, at := range atoms {
+					if at.Kind == "isnil" && stripConv(at.X) == ssa.Value(prevCall.Value()) {
+						if at.Truth {
+							isNilPrev = true
+						} else {
+							nonNilPrev = true
+						}
 					} else {
-						nonNilPrev = true
+						other = true
 					}
-				} else {
-					other = true
 				}
-			}
-			c.sites++
-			switch {
-			case strings.Contains(name, "createObjectChange"):
-				ok := isNilPrev && !other
-				c.Check(fname(co)+"#createObjectChange-only-without-previous", a.Pos(), ok, ifelse(ok, "appended exactly under prev == nil", "a creation entry (whose undo deletes the address from the live set) is journaled although a previous object may exist: reverting it forgets that object — e.g. one marked deleted earlier in the block is reloaded from the trie as if it had never been destroyed"))
-			case strings.Contains(name, "resetObjectChange"):
-				// carries prev
-				carries := false
-				backward(args[0], func(v ssa.Value) bool {
-					if v == ssa.Value(prevCall.Value()) {
-						carries = true
-					}
-					return true
-				})
-				ok := nonNilPrev && carries
-				c.Check(fname(co)+"#resetObjectChange-carries-previous", a.Pos(), ok, ifelse(ok, "appended under prev != nil with the previous object as pre-image", "the reset entry does not carry the previous object"))
+				c.sites++
+				switch {
+				case strings.Contains(name, "createObjectChange"):
+					ok := isNilPrev && !other
+					c.Check(fname(co)+"#createObjectChange-only-without-previous", a.Pos(), ok, ifelse(ok, "appended exactly under prev == nil", "a creation entry (whose undo deletes the address from the live set) is journaled although a previous object may exist: reverting it forgets that object — e.g. one marked deleted earlier in the block is reloaded from the trie as if it had never been destroyed"))
+				case strings.Contains(name, "resetObjectChange"):
+					// carries prev
+					carries := false
+					backward(args[0], func(v ssa.Value) bool {
+						if v == ssa.Value(prevCall.Value()) {
+							carries = true
+						}
+						return true
+					})
+					ok := nonNilPrev && carries
+					c.Check(fname(co)+"#resetObjectChange-carries-previous", a.Pos(), ok, ifelse(ok, "appended under prev != nil with the previous object as pre-image", "the reset entry does not carry the previous object"))
+				}
 			}
 		}
 	}
